@@ -456,3 +456,226 @@ def param_arr(name):
 
 STUBS["param_factor_min"] = lambda ctx: [_scalar(param("factor_min", positive=True))]
 STUBS["param_factor_max"] = lambda ctx: [_scalar(param("factor_max", positive=True))]
+
+
+# --------------------------------------------------------------------------------------
+# RejectionLoop.step as a callee (same postcondition, read off the loop object)
+# --------------------------------------------------------------------------------------
+
+
+def _step_post(loop, clip, res, s, t1, atol, rtol, damp):
+    du = res.step_from.t - s.step_from.t
+    proposed = loop.solver.step(state=s.step_from, dt=du, damp=damp)
+    ep, es = loop.error.estimate_error_norm(s.error_step_from, previous=s.step_from, proposed=proposed, dt=du, atol=atol, rtol=rtol, damp=damp)
+    cl = same("interp_from_is_entry_state", res.interp_from, s.step_from)
+    cl += same("step_from_is_one_step_from_entry_state", res.step_from, proposed)
+    cl += [ge("time_advances_only_through_an_accepted_attempt", ep - 1.0)]
+    cl += same("error_state_of_accepted_attempt", res.error_step_from, es)
+    cl += [gt("accepted_step_positive", du), gt("next_proposal_positive", res.dt)]
+    cl += [ge("factor>=factor_min", res.dt - param_arr("factor_min") * du), ge("factor<=factor_max", param_arr("factor_max") * du - res.dt)]
+    cl += [eq("step_count_incremented_once", res.step_from.num_steps, s.step_from.num_steps + 1.0)]
+    if clip:
+        cl.append(ge("no_step_ends_beyond_checkpoint", t1 - res.step_from.t))
+    return cl
+
+
+def _step_requires(clip, s, t1):
+    cl = [gt("dt>0", s.dt)]
+    if clip:
+        cl.append(gt("before_t1", t1 - s.step_from.t))
+    return cl
+
+
+step_as_callee = Contract(
+    name=f"{MOD}:RejectionLoop.step", module=MOD, qualname="RejectionLoop.step",
+    requires=lambda self, tup: _step_requires(self.clip_dt, tup[0], tup[1]),
+    ensures=lambda res, self, tup: _step_post(self, self.clip_dt, res, *tup),
+    doc="callee form of the rejection-loop contract",
+)
+
+
+# --------------------------------------------------------------------------------------
+# RejectionLoop.loop : one call = (maybe) one accepted step, then skip / interpolate / land
+# --------------------------------------------------------------------------------------
+
+
+def _loop_requires(state0, t1, eps):
+    return [
+        gt("dt>0", state0.dt), ge("eps>=0", eps),
+        ge("interp_from_not_after_step_from", state0.step_from.t - state0.interp_from.t),
+        holds("if_already_beyond_then_interp_from_before_checkpoint", jnp.logical_or(state0.step_from.t <= t1 + eps, state0.interp_from.t <= t1)),
+    ]
+
+
+def _loop_state_facts(solution, st, t1, eps):
+    """Facts about (reported solution, new state) that only mention the result and the checkpoint."""
+    before = st.step_from.t + eps < t1
+    after = st.step_from.t > t1 + eps
+    return [
+        st.dt > 0.0,
+        st.interp_from.t <= st.step_from.t,
+        solution.t <= st.step_from.t,
+        solution.num_steps == st.step_from.num_steps,
+        # not yet at the checkpoint: nothing is interpolated, the step end itself is handed back
+        jnp.logical_or(jnp.logical_not(before), _tree_equal(solution, st.step_from)),
+        # stepped beyond: report exactly at t1, continue interpolating from t1
+        jnp.logical_or(jnp.logical_not(after), _all([solution.t == t1, st.interp_from.t == t1])),
+        # landed within eps: report the step end itself, which is within eps of t1
+        jnp.logical_or(jnp.logical_or(before, after), _all([solution.t == st.step_from.t, st.interp_from.t == st.step_from.t, solution.t <= t1 + eps, solution.t >= t1 - eps])),
+    ]
+
+
+def _loop_post(clip, res, state0, t1, eps):
+    solution, st = res
+    t0 = state0.step_from.t
+    stepped = t0 + eps < t1
+    lo = jnp.where(stepped, t0, state0.interp_from.t)
+    after = st.step_from.t > t1 + eps
+    names = ["dt>0", "interp_from<=step_from", "reported_time<=step_from", "reported_step_count_is_current", "skip_returns_step_end", "beyond_reports_exactly_at_checkpoint", "landed_reports_within_eps"]
+    cl = [holds(n, c) for n, c in zip(names, _loop_state_facts(solution, st, t1, eps))]
+    cl += [
+        holds("no_attempt_no_time_advance", jnp.logical_or(stepped, _all([st.step_from.t == t0, st.step_from.num_steps == state0.step_from.num_steps]))),
+        holds("one_accepted_attempt_advances_time", jnp.logical_or(jnp.logical_not(stepped), _all([st.step_from.t > t0, st.step_from.num_steps == state0.step_from.num_steps + 1.0]))),
+        holds("interpolation_between_its_two_states", jnp.logical_or(jnp.logical_not(after), _all([lo <= t1, t1 <= st.step_from.t]))),
+    ]
+    if clip:
+        cl.append(holds("clipped_step_not_beyond_checkpoint", jnp.logical_or(jnp.logical_not(stepped), st.step_from.t <= t1)))
+    return cl
+
+
+def loop_contract(clip):
+    def wrap(target):
+        def f(state0, t1, atol, rtol, eps, damp):
+            return target(make_loop(clip), state0, t1=t1, atol=atol, rtol=rtol, eps=eps, damp=damp)
+
+        return f
+
+    def instances(tier):
+        def make(rng):
+            st = _timestepstate(rng)
+            return (st, jnp.asarray(rng.uniform(1.5, 2.0)), jnp.asarray(1e-3), jnp.asarray(1e-3), jnp.asarray(1e-8), jnp.asarray(0.0)), {}
+        return [Instance(f"clip={clip}", make, names=lambda a, k: {id(a[0].dt): "dt", id(a[0].step_from.t): "t_step", id(a[0].interp_from.t): "t_interp", id(a[1]): "t1", id(a[4]): "eps"})]
+
+    return Contract(
+        name=f"{MOD}:RejectionLoop.loop[clip={clip}]", module=MOD, qualname="RejectionLoop.loop", wrap=wrap,
+        requires=lambda state0, t1, atol, rtol, eps, damp: _loop_requires(state0, t1, eps),
+        ensures=lambda res, state0, t1, atol, rtol, eps, damp: _loop_post(clip, res, state0, t1, eps),
+        instances=instances, callees=[step_as_callee],
+        doc="branch selection by eps, reporting time, interpolation bracket, step counting",
+    )
+
+
+loop_as_callee = Contract(
+    name=f"{MOD}:RejectionLoop.loop", module=MOD, qualname="RejectionLoop.loop",
+    requires=lambda self, state0, *, t1, atol, rtol, eps, damp: _loop_requires(state0, t1, eps),
+    ensures=lambda res, self, state0, *, t1, atol, rtol, eps, damp: _loop_post(self.clip_dt, res, state0, t1, eps),
+    doc="callee form of the loop contract",
+)
+
+
+# --------------------------------------------------------------------------------------
+# solve_adaptive_save_at: checkpoint loop (while) inside the scan over checkpoints
+# --------------------------------------------------------------------------------------
+
+CURRENT: dict = {}
+
+
+def solve_contract(clip):
+    from vcgen.harness import hoare_scan
+
+    def wrap(target):
+        def f(u, save_at, atol, rtol, dt0, eps, damp):
+            import probdiffeq._ivpsolve.solvers_via_adaptive_steps as M
+
+            def adv_inv(init, c, g):
+                t_next = CURRENT["t_next"]
+                entered = g["entered"]
+                untouched = _tree_equal(c, init)
+                facts = _all(_loop_state_facts(c.solution, c.loopstate, t_next, eps) + [
+                    c.do_continue == (c.loopstate.step_from.t + eps < t_next),
+                    c.loopstate.step_from.num_steps == g["accepted"],
+                    jnp.logical_or(c.loopstate.step_from.t <= t_next + eps, c.loopstate.interp_from.t <= t_next),
+                ])
+                return [
+                    holds("before_first_pass_state_is_initial", jnp.logical_or(entered, _all([untouched, g["accepted"] == init.loopstate.step_from.num_steps]))),
+                    holds("after_a_pass_state_is_consistent", jnp.logical_or(jnp.logical_not(entered), facts)),
+                    gt("dt>0", c.loopstate.dt),
+                    ge("interp_from<=step_from", c.loopstate.step_from.t - c.loopstate.interp_from.t),
+                    holds("interp_bracket", jnp.logical_or(c.loopstate.step_from.t <= t_next + eps, c.loopstate.interp_from.t <= t_next)),
+                ]
+
+            def adv_ghost_step(init, s, g, s1):
+                t_next = CURRENT["t_next"]
+                stepped = s.loopstate.step_from.t + eps < t_next
+                return {"entered": jnp.asarray(True), "accepted": g["accepted"] + jnp.where(stepped, 1.0, 0.0)}
+
+            def expose(init, s2, g2):
+                CURRENT["adv_exit_ghost"] = g2
+
+            adv_rule = hoare_while(
+                adv_inv, name="checkpoint_loop",
+                ghost_init=lambda init: {"entered": jnp.asarray(False), "accepted": init.loopstate.step_from.num_steps},
+                ghost_step=adv_ghost_step, expose=expose,
+            )
+
+            def scan_inv(init, carry, g):
+                sol, st = carry
+                t_prev = g["t_prev"]
+                return [
+                    gt("dt>0", st.dt),
+                    ge("interp_from<=step_from", st.step_from.t - st.interp_from.t),
+                    holds("interp_from_behind_last_checkpoint_or_landed", jnp.logical_or(st.interp_from.t <= t_prev, _all([st.interp_from.t == st.step_from.t, st.step_from.t <= t_prev + eps]))),
+                ]
+
+            def x_hyp(g, x):
+                return [ge("checkpoints_increasing", x - g["t_prev"])]
+
+            def on_step(c, g, x):
+                CURRENT["t_next"] = x
+
+            def step_post(c, g, x, c1, y):
+                sol, st = c1
+                return [
+                    holds("reported_exactly_once_at_the_requested_time_up_to_eps", _all([y.t <= x + eps, y.t >= x - eps])),
+                    holds("reported_step_count_equals_accepted_attempts", y.num_steps == CURRENT["adv_exit_ghost"]["accepted"]),
+                    holds("carry_continues_from_the_reported_state", _all([st.step_from.t >= y.t, _tree_equal(y, sol)])),
+                ]
+
+            scan_rule = hoare_scan(
+                scan_inv, name="checkpoints",
+                ghost_init=lambda init, xs: {"t_prev": save_at[0]},
+                ghost_step=lambda g, x: {"t_prev": x},
+                x_hyp=x_hyp, step_post=step_post, on_step=on_step,
+            )
+            old_scan = M.flow.scan
+            M.flow.scan = scan_rule
+            try:
+                def while_loop(cond_fun, body_fun, init):
+                    # the same parameter also reaches RejectionLoop (under contract here; only traced abstractly for shapes)
+                    if hasattr(init, "loopstate"):
+                        return adv_rule(cond_fun, body_fun, init)
+                    return jax.lax.while_loop(cond_fun, body_fun, init)
+
+                solve = target(solver=AbsSolver(), error=AbsError(), control=AbsControl(), clip_dt=clip, while_loop=while_loop, warn=False)
+                return solve(u, save_at, atol, rtol, dt0=dt0, eps=eps, damp=damp)
+            finally:
+                M.flow.scan = old_scan
+
+        return f
+
+    def requires(u, save_at, atol, rtol, dt0, eps, damp):
+        return [gt("dt0>0", dt0), ge("eps>=0", eps), ge("save_at_increasing", save_at[1:] - save_at[:-1])]
+
+    def ensures(res, u, save_at, atol, rtol, dt0, eps, damp):
+        return [holds("one_report_per_checkpoint_in_order", jnp.asarray(res.t.shape[0] == save_at.shape[0] - 1))]
+
+    def instances(tier):
+        def make(rng):
+            return (jnp.asarray(rng.normal(size=(1,))), jnp.asarray(np.cumsum(rng.uniform(0.1, 1.0, size=(3,)))), jnp.asarray(1e-3), jnp.asarray(1e-3), jnp.asarray(rng.uniform(0.05, 0.5)), jnp.asarray(1e-8), jnp.asarray(0.0)), {}
+        return [Instance(f"clip={clip}", make, names=lambda a, k: {id(a[1]): "save_at", id(a[4]): "dt0", id(a[5]): "eps"})]
+
+    return Contract(
+        name=f"{MOD}:solve_adaptive_save_at[clip={clip}]", module=MOD, qualname="solve_adaptive_save_at", wrap=wrap,
+        requires=requires, ensures=ensures, instances=instances, callees=[loop_as_callee],
+        doc="checkpoint loop + scan over checkpoints (loop rules): every requested time is reported once, in order, within eps; counts = accepted attempts",
+    )
